@@ -1,5 +1,6 @@
 from typing import Any
 
+from .errors import make_invalid_type_error
 from .types import (
     AnySchema,
     BoolSchema,
@@ -12,6 +13,7 @@ from .types import (
     IntSchema,
     ListSchema,
     NoneSchema,
+    Schema,
     StrSchema,
     TypeAliasProps,
     TypeAliasSchema,
@@ -24,6 +26,10 @@ __all__ = ("SchemaFacade",)
 class SchemaFacade:
     def alias(self, /, name: str, type_: GenericSchema) -> TypeAliasSchema:
         props = TypeAliasProps()
+        if not isinstance(name, str):
+            raise make_invalid_type_error(TypeAliasSchema(props), name, (str,))
+        if not isinstance(type_, Schema):
+            raise make_invalid_type_error(TypeAliasSchema(props), type_, (Schema,))
         return TypeAliasSchema(props.update(name=name, type=type_))
 
     @property
